@@ -12,7 +12,8 @@ Not decided: exact round trip of values, exact counts.
 import ast
 
 from engine import cfront, crules, iface, pyfacts
-from engine.cfront import estr, ewalk, swalk
+from engine.cfront import estr, estr_top, ewalk, swalk
+from engine.poly import Poly
 from engine.pyfacts import src
 
 PID = "C14"
@@ -98,6 +99,61 @@ def r2(R, m):
     R.check("np.lexsort((self.col, self.row))" in ast.unparse(f2), "C14.R2", SPF, f2.lineno, "sparse_frame.sort", "lexsort((col, row)): row-major order", "sort keys are not (row major, col minor)")
 
 
+class NotEvaluable(Exception):
+    pass
+
+
+def case_effects(body, keys, case, defs=None):
+    """finite case analysis of a merge loop body.  keys: list of (left text, right text) key pairs compared by the body; case: one
+    ordering '<' / '=' / '>' per pair.  Evaluates every branch condition built from comparisons of those pairs (&&, ||, !) under the
+    case and returns the texts of the expression statements that execute, in order.  Raises NotEvaluable for any other condition."""
+    norm = lambda e: estr(cfront.esubst(e, defs or {})).replace("(int)", "").replace("(unsigned int)", "").replace(" ", "")
+    table = {}
+    for (l, r), c in zip(keys, case):
+        table[(l.replace(" ", ""), r.replace(" ", ""))] = c
+
+    def ev(e):
+        while e.k == "cast":
+            e = e.a[0]
+        if e.k == "bin" and e.op in ("&&", "||"):
+            a = ev(e.a[0])
+            if e.op == "&&":
+                return a and ev(e.a[1])
+            return a or ev(e.a[1])
+        if e.k == "un" and e.op == "!":
+            return not ev(e.a[0])
+        if e.k == "bin" and e.op in ("<", ">", "<=", ">=", "==", "!="):
+            l, r = norm(e.a[0]), norm(e.a[1])
+            l, r = l.strip("()"), r.strip("()")
+            rel = None
+            if (l, r) in table:
+                rel = table[(l, r)]
+            elif (r, l) in table:
+                rel = {"<": ">", ">": "<", "=": "="}[table[(r, l)]]
+            if rel is None:
+                raise NotEvaluable(estr(e))
+            return {"<": rel == "<", ">": rel == ">", "<=": rel in "<=", ">=": rel in ">=", "==": rel == "=", "!=": rel != "="}[e.op]
+        raise NotEvaluable(estr(e))
+    out = []
+
+    def run(st):
+        if st is None:
+            return
+        if st.k in ("block", "multi"):
+            for x in st.body:
+                run(x)
+        elif st.k == "if":
+            run(st.then if ev(st.cond) else st.els)
+        elif st.k == "expr":
+            out.append(estr_top(st.e).replace(" ", ""))
+        elif st.k in ("decl", "null"):
+            pass
+        else:
+            raise NotEvaluable("statement %s" % st.k)
+    run(body)
+    return out
+
+
 def r3(R):
     R.rule("C14.R3", "merge kernels: loop while both frames have pixels; the frame with the smaller key advances; equal keys record one hit and "
                      "advance both; keys are compared directly (never through the sign of an unsigned difference); mask_to_coo rejects "
@@ -124,41 +180,32 @@ def r3(R):
     conds = set(crules.rel_norm(e, p) for e, p in _conj(wl[0].cond))
     R.check(conds == {("<", "p1", nnz1), ("<", "p2", nnz2)}, "C14.R3", SP, wl[0].line, "sparse_overlaps", "while (p1 < nnz1) && (p2 < nnz2)",
             "the merge can read past the end of a frame or stop early: %s" % sorted(conds))
-    cfg = f.cfg
-    incs = {}
-    for n in cfg.nodes:
-        if n.e is not None and n.e.k == "incdec" and n.e.op == "++" and n.e.a[0].k == "var" and n.id in cfg.reachable():
-            incs.setdefault(n.e.a[0].name, []).append(crules.guard_set(cfg, n.id))
-    A, B = "%s[p1]" % i1, "%s[p2]" % i2
-    C, D = "%s[p1]" % j1, "%s[p2]" % j2
-
-    def rowgt(g):   # i1 > i2
-        return ("<", _c(B), _c(A)) in _cs(g)
-
-    def rowlt(g):
-        return ("<", _c(A), _c(B)) in _cs(g)
-
-    def colgt(g):
-        return ("<", _c(D), _c(C)) in _cs(g)
-
-    def collt(g):
-        return ("<", _c(C), _c(D)) in _cs(g)
-    p1g = [g for g in incs.get("p1", []) if any(x[1] in ("p1",) or True for x in g)]
-    p2g = incs.get("p2", [])
-    # inside the while loop only (guards contain the loop condition)
-    p1g = [g for g in incs.get("p1", []) if ("<", "p1", nnz1) in g and ("<", "p2", nnz2) in g]
-    p2g = [g for g in incs.get("p2", []) if ("<", "p1", nnz1) in g and ("<", "p2", nnz2) in g]
-    ok1 = sum(1 for g in p1g if rowlt(g)) == 1 and sum(1 for g in p1g if collt(g) and not rowlt(g) and not rowgt(g)) == 1
-    ok2 = sum(1 for g in p2g if rowgt(g)) == 1 and sum(1 for g in p2g if colgt(g) and not rowlt(g) and not rowgt(g)) == 1
-    both1 = [g for g in p1g if not rowlt(g) and not rowgt(g) and not collt(g) and not colgt(g)]
-    both2 = [g for g in p2g if not rowlt(g) and not rowgt(g) and not collt(g) and not colgt(g)]
-    R.check(ok1 and ok2, "C14.R3", SP, wl[0].line, "sparse_overlaps", "smaller (row, col) key advances: p1++ under i1<i2 or (i1==i2, j1<j2); p2++ under the converse",
-            "a frame pointer advances although its pixel is not the smaller one: shared pixels are skipped")
-    R.check(len(both1) == 1 and len(both2) == 1, "C14.R3", SP, wl[0].line, "sparse_overlaps", "equal keys advance both pointers", "equal pixels do not advance both frames (endless loop or double count)")
-    hits = [(n, x) for n, x, t in crules.stores(f, lambda t: t.k == "idx" and estr(t.a[0]) in (k1, k2) and estr(t.a[1]) == "nhit")]
-    R.check(len(hits) == 2 and all(not (rowlt(crules.guard_set(cfg, n.id)) or rowgt(crules.guard_set(cfg, n.id)) or collt(crules.guard_set(cfg, n.id)) or colgt(crules.guard_set(cfg, n.id))) for n, x in hits)
-            and sorted(estr(x.a[1]) for n, x in hits) == ["p1", "p2"], "C14.R3", SP, wl[0].line, "sparse_overlaps", "k1[nhit] = p1; k2[nhit] = p2 only for equal keys",
-            "a hit is recorded for unequal pixels or with the wrong indices")
+    # finite case analysis: the body only branches on the orderings of (row1, row2) and (col1, col2); run it under each of the 9 cases
+    keys = [("%s[p1]" % i1, "%s[p2]" % i2), ("%s[p1]" % j1, "%s[p2]" % j2)]
+    inc = lambda v: {"%s++" % v, "++%s" % v, "%s+=1" % v}
+    hit_stores = {"%s[nhit]=p1" % k1, "%s[nhit]=p2" % k2}
+    try:
+        for rc in "<=>":
+            for cc in "<=>":
+                eff = case_effects(wl[0].body, keys, (rc, cc))
+                adv1 = sum(1 for e_ in eff if e_ in inc("p1"))
+                adv2 = sum(1 for e_ in eff if e_ in inc("p2"))
+                hits_ = [e_ for e_ in eff if e_ in hit_stores]
+                other = [e_ for e_ in eff if e_ not in inc("p1") | inc("p2") | hit_stores | inc("nhit")]
+                first_smaller = rc == "<" or (rc == "=" and cc == "<")
+                second_smaller = rc == ">" or (rc == "=" and cc == ">")
+                want = (1, 0) if first_smaller else ((0, 1) if second_smaller else (1, 1))
+                R.check((adv1, adv2) == want, "C14.R3", SP, wl[0].line, "sparse_overlaps", "rows %s, cols %s: p1 advances %d, p2 advances %d" % (rc, cc, adv1, adv2),
+                        "a frame pointer advances although its pixel is not the smaller one (or equal pixels do not advance both frames): shared pixels are skipped, "
+                        "counted twice, or the loop never ends")
+                eq = rc == "=" and cc == "="
+                R.check((sorted(hits_) == sorted(hit_stores) and sum(1 for e_ in eff if e_ in inc("nhit")) == 1) if eq else (not hits_ and not any(e_ in inc("nhit") for e_ in eff)),
+                        "C14.R3", SP, wl[0].line, "sparse_overlaps", "rows %s, cols %s: hit recorded %s" % (rc, cc, sorted(hits_)),
+                        "a hit is recorded for unequal pixels, not recorded for equal ones, or with the wrong indices")
+                R.check(not other, "C14.R3", SP, wl[0].line, "sparse_overlaps", "no other effect in the merge body (%s)" % other, "the merge body does something else: %s" % other)
+    except NotEvaluable as ex:
+        R.shape(False, "C14.R3", SP, "sparse_overlaps", "a merge body that branches only on the orderings of (i1[p1], i2[p2]) and (j1[p1], j2[p2]) - found %s" % ex)
+    # hit stores happen before the pointers move
     # -- coverlaps
     g = cfront.find_func(tus, "coverlaps", SP)
     wl = [s for s in swalk(g.body) if s.k == "while"]
@@ -175,28 +222,22 @@ def r3(R):
         R.check(bool(wide), "C14.R3", SP, e.line, "coverlaps", "%s = ((uint32_t)row << 16) + col" % kname, "the row is shifted in a 16-bit/int type: keys of rows >= 32768 overflow")
     if len(keys) == 2:
         ka, kb = sorted(keys)     # p1, p2
-        incs = {}
-        for n in cfg.nodes:
-            if n.e is not None and n.e.k == "incdec" and n.e.op == "++" and n.e.a[0].k == "var" and n.id in cfg.reachable():
-                incs.setdefault(n.e.a[0].name, []).append(crules.guard_set(cfg, n.id))
-        nn1, nn2 = g.params[3].name, g.params[7].name
-        i1g = [x for x in incs.get("i1", []) if ("<", "i2", nn2) in x]
-        i2g = [x for x in incs.get("i2", []) if ("<", "i1", nn1) in x]
-        def orders(gs):
-            """which of  ka < kb, ka == kb, ka > kb  the guard set leaves possible (if / else-if chains give p1 != p2 and p1 <= p2)"""
-            poss = {"<", "==", ">"}
-            allow = {("<", ka, kb): {"<"}, ("<", kb, ka): {">"}, ("<=", ka, kb): {"<", "=="}, ("<=", kb, ka): {">", "=="},
-                     ("==", ka, kb): {"=="}, ("==", kb, ka): {"=="}, ("!=", ka, kb): {"<", ">"}, ("!=", kb, ka): {"<", ">"}}
-            for g_ in gs:
-                if g_ in allow:
-                    poss &= allow[g_]
-            return poss
-        o1 = [orders(x) for x in i1g]
-        o2 = [orders(x) for x in i2g]
-        ok = bool(o1) and bool(o2) and set().union(*o1) == {"<", "=="} and set().union(*o2) == {">", "=="} \
-            and all(len(o) == 1 for o in o1 + o2) and sorted(map(tuple, o1)) == [("<",), ("==",)] and sorted(map(tuple, o2)) == [("==",), (">",)]
-        R.check(ok, "C14.R3", SP, wl[0].line, "coverlaps", "i1++ iff key1 <= key2, i2++ iff key2 <= key1 (direct comparisons of the keys)",
-                "the merge does not advance by direct comparison of the two packed keys")
+        try:
+            okc = True
+            detail = []
+            for rc in "<=>":
+                eff = case_effects(wl[0].body, [(ka, kb)], (rc,))
+                a1 = sum(1 for e_ in eff if e_ in ("i1++", "++i1", "i1+=1"))
+                a2 = sum(1 for e_ in eff if e_ in ("i2++", "++i2", "i2+=1"))
+                want = {"<": (1, 0), "=": (1, 1), ">": (0, 1)}[rc]
+                detail.append("%s:%s" % (rc, (a1, a2)))
+                okc = okc and (a1, a2) == want
+                counted = [e_ for e_ in eff if e_.startswith(g.params[8].name + "[") and ("+=1" in e_ or "++" in e_)]
+                okc = okc and (len(counted) == 1) == (rc == "=")
+            R.check(okc, "C14.R3", SP, wl[0].line, "coverlaps", "i1++ iff key1 <= key2, i2++ iff key2 <= key1 (direct comparisons of the keys) %s" % detail,
+                    "the merge does not advance by direct comparison of the two packed keys (or the overlap is counted for unequal keys)")
+        except NotEvaluable as ex:
+            R.shape(False, "C14.R3", SP, "coverlaps", "a merge body that branches only on the ordering of the two packed keys - found %s" % ex)
     # -- mask_to_coo range checks
     h = cfront.find_func(tus, "mask_to_coo", SP)
     conds = [crules.rel_norm(e, True) for s in swalk(h.body) if s.k == "if" for e, p in _disj(s.cond)]
@@ -206,10 +247,39 @@ def r3(R):
                 "an image dimension beyond the 16-bit coordinate range is accepted: coordinates wrap")
     # -- compress_duplicates writes the last run and returns c+1
     cd = cfront.find_func(tus, "compress_duplicates", SP)
-    last = [s for s in (cd.body.body if cd.body.k == "block" else []) if s.k == "expr"]
-    tail = [estr(s.e) for s in last[-4:]]
-    R.check(tail == ["i[c] = ik", "j[c] = jk", "oi[c] = t", "c++"], "C14.R3", SP, cd.line, "compress_duplicates", "last run written: i[c]=ik; j[c]=jk; oi[c]=t; c++",
-            "the last (label1,label2) pair or its count is not written: %s" % tail)
+    top = cd.body.body if cd.body.k == "block" else []
+    loops_at = [n_ for n_, st in enumerate(top) if st.k == "for"]
+    R.shape(bool(loops_at), "C14.R3", SP, "compress_duplicates", "the run-length loop at the end of the function")
+    runloop = top[loops_at[-1]]
+    tail_st = top[loops_at[-1] + 1:]
+    # stores of one run inside the loop: (array, value) pairs written at the write position
+    def run_stores(stmts):
+        out = {}
+        pos = set()
+        for st in stmts:
+            for s2 in swalk(st):
+                if s2.k == "expr" and s2.e.k == "asg" and s2.e.op == "=" and s2.e.a[0].k == "idx" and s2.e.a[0].a[1].k == "var" and s2.e.a[1].k == "var":
+                    out[estr(s2.e.a[0].a[0])] = s2.e.a[1].name
+                    pos.add(s2.e.a[0].a[1].name)
+        return out, pos
+    inl, ipos = run_stores([runloop.body])
+    tl, tpos = run_stores(tail_st)
+    R.shape(len(inl) == 3 and len(ipos) == 1, "C14.R3", SP, "compress_duplicates", "the three stores of a finished run (label1, label2, count) at one write position")
+    cpos = list(ipos)[0]
+    # value returned = write position + 1 after the last run was written
+    val = Poly.atom(cpos)
+    ret = None
+    for st in tail_st:
+        if st.k == "expr" and st.e.k == "incdec" and st.e.a[0].k == "var" and st.e.a[0].name == cpos:
+            val = val + (1 if st.e.op == "++" else -1)
+        elif st.k == "expr" and st.e.k == "asg" and st.e.a[0].k == "var" and st.e.a[0].name == cpos and st.e.op in ("+=", "-=") and st.e.a[1].k == "int":
+            val = val + (st.e.a[1].val if st.e.op == "+=" else -st.e.a[1].val)
+        elif st.k == "return" and st.e is not None:
+            r_ = crules.lin(st.e)
+            ret = r_.subs({cpos: val}) if r_ is not None else None
+    R.check(tl == inl and tpos == ipos and ret is not None and ret == Poly.atom(cpos) + 1, "C14.R3", SP, cd.line, "compress_duplicates",
+            "last run written: i[c]=ik; j[c]=jk; oi[c]=t; c++",
+            "the last (label1,label2) pair or its count is not written, or the returned number of pairs is not the write position + 1: tail stores %s, return %s" % (tl, ret))
 
 
 def _c(t):
@@ -319,5 +389,18 @@ def r5(R, m):
         u = ast.unparse(fn)
         R.check("np.uint16" in u and u.count("np.empty") >= 2, "C14.R5", SPF, fn.lineno, q, "row/col buffers allocated as np.uint16", "coordinate buffers are not uint16")
     fm = m.func("from_data_mask")
-    R.check("data.shape[0] < pow(2, 16) - 1" in ast.unparse(fm) and "data.shape[1] < pow(2, 16) - 1" in ast.unparse(fm), "C14.R5", SPF, fm.lineno, "from_data_mask", "shape asserted < 65535",
-            "images beyond the 16-bit coordinate range are not rejected")
+    bounded = set()
+    for a_ in ast.walk(fm):
+        if not isinstance(a_, ast.Assert):
+            continue
+        tests = a_.test.values if isinstance(a_.test, ast.BoolOp) and isinstance(a_.test.op, ast.And) else [a_.test]
+        for t_ in tests:
+            if isinstance(t_, ast.Compare) and len(t_.ops) == 1:
+                l_, r_, op_ = t_.left, t_.comparators[0], type(t_.ops[0]).__name__
+                if op_ in ("Gt", "GtE"):
+                    l_, r_, op_ = r_, l_, {"Gt": "Lt", "GtE": "LtE"}[op_]
+                c_ = pyfacts.const_int(r_)
+                if c_ is not None and ((op_ == "Lt" and c_ <= 65535) or (op_ == "LtE" and c_ <= 65534)):
+                    bounded.add(src(l_).replace(" ", ""))
+    R.check({"data.shape[0]", "data.shape[1]"} <= bounded, "C14.R5", SPF, fm.lineno, "from_data_mask", "shape asserted < 65535",
+            "images beyond the 16-bit coordinate range are not rejected (asserted: %s)" % sorted(bounded))
